@@ -617,7 +617,7 @@ pub fn run(ctx: &Ctx) -> Report {
             1 => tok().prop_map(|t| E::A(Act::FPrint(t))),
             1 => (tok(), tok()).prop_map(|(a, b)| E::T(Tst::XattrMatch(a, b))),
         ];
-        run_prop(&mut st, ctx.seed, "C04-tree", shard as u64, ctx.tier.pick(20_000u32, 200_000u32) / 16, &crate::gen::expr_over(leaf.boxed(), 4, 12, true), judge_tree, |t| tree_json(t));
+        run_prop(&mut st, ctx.seed, "C04-tree", shard as u64, ctx.tier.pick(20_000u32, 200_000u32) / 16, &crate::gen::related(crate::gen::expr_over(leaf.boxed(), 4, 12, true), true), judge_tree, |t| tree_json(t));
         st
     });
     total.merge(rt);
